@@ -25,6 +25,9 @@ func verifLineLen(res string) int { return 3 + len(res) } // without the line br
 func verifToFat(m *base.MetricItem) (string, error) {
 	id := len(verifRecs)
 	verifRecs = append(verifRecs, *m)
+	if n := verifLineLen(m.Resource) - 1; n > len(verifFill) {
+		return verifIDs[id:id+1] + strings.Repeat("x", n), nil // a long resource name: a line longer than any read buffer
+	}
 	return verifIDs[id:id+1] + verifFill[:verifLineLen(m.Resource)-1], nil
 }
 
@@ -128,6 +131,10 @@ func VerifC17RoundTrip() {
 	rt.RedirectCall("(*github.com/alibaba/sentinel-golang/core/base.MetricItem).ToFatString", verifToFat)
 	rt.RedirectCall("github.com/alibaba/sentinel-golang/core/base.MetricItemFromFatString", verifFromFat)
 	K, Q := rt.Param("K"), rt.Param("Q")
+	resNames := []string{"", verifRes[0], verifRes[1]}
+	if n := rt.Param("LONG"); n > 0 {
+		resNames[2] = strings.Repeat("b", n) // resource names have no length limit
+	}
 	t0 := uint64(1700006400000) // 2023-11-15 00:00:00 UTC
 	if rt.Param("DAY") != 0 {
 		t0 += 86400000 - 2000 // two seconds before midnight
@@ -151,7 +158,7 @@ func VerifC17RoundTrip() {
 		n := 1 + rt.Choice(2)
 		items := make([]*base.MetricItem, 0, n)
 		for i := 0; i < n; i++ {
-			items = append(items, &base.MetricItem{Resource: verifRes[rt.Choice(2)], PassQps: uint64(len(verifRecs) + i)})
+			items = append(items, &base.MetricItem{Resource: resNames[1+rt.Choice(2)], PassQps: uint64(len(verifRecs) + i)})
 		}
 		err := w.Write(ts, items)
 		rt.Assert(err == nil, "Write accepts a batch whose second is not before the previous one")
@@ -194,7 +201,7 @@ func VerifC17RoundTrip() {
 		begin := t0/1000 + rt.U64n("qb", 4)
 		byLines := rt.Bool("byLines")
 		end := begin + rt.U64n("qlen", 3)
-		res := []string{"", "a", "bbbbbb"}[rt.Choice(3)]
+		res := resNames[rt.Choice(3)]
 		maxLines := uint32(1 + rt.Choice(3))
 		var got []*base.MetricItem
 		var err error
